@@ -89,6 +89,7 @@ def gen_case(rng, idx, tier):
         "items": rng.choice(["str", "tuple", "dict"]),
         "n": rng.randint(0, 7),
         "extra": rng.random() < 0.3,
+        "iterable": rng.choice(["list", "list", "tuple", "generator", "iterator", "mapobj"]),
     }
 
 
@@ -244,7 +245,10 @@ def run_map(case):
 
     def build():
         wf = inproc.Workflow(working_dir="/tmp")
-        out = wf.map(func, items, extra=extra, name=name)
+        # the items may arrive as a list, a tuple or a one-shot iterable (generator, iterator, map object)
+        form = case.get("iterable", "list")
+        given = {"list": lambda: list(items), "tuple": lambda: tuple(items), "generator": lambda: (i for i in items), "iterator": lambda: iter(items), "mapobj": lambda: map(lambda i: i, items)}[form]()
+        out = wf.map(func, given, extra=extra, name=name)
         return wf, out
 
     if case["naming"] == "function_dup":
@@ -280,7 +284,7 @@ def run_map(case):
         want_out = "%s_%s.out" % (items[i] if case["items"] == "str" else (items[i][0] if case["items"] == "tuple" else items[i]["x"]), "E" if case["extra"] else "y")
         if t.outputs != [want_out]:
             res.violation("map-args", "target %d got outputs %s; expected %s" % (i, t.outputs, [want_out]))
-    res.sig = ("map", case["naming"], case["items"], n, case["extra"])
+    res.sig = ("map", case["naming"], case["items"], n, case["extra"], case.get("iterable", "list"))
     res.nontrivial = n >= 2
     return res
 
